@@ -30,7 +30,7 @@ def run_timeout(seconds: float, func, *args, **kwargs):
 
         if thread.is_alive():
             ctypes.pythonapi.PyThreadState_SetAsyncExc(
-                ctypes.c_long(thread.ident), ctypes.py_object(KeyboardInterrupt()))
+                ctypes.c_long(thread.ident), ctypes.py_object(KeyboardInterrupt))
             thread.join()
         raise TimeoutError
 
